@@ -3,19 +3,28 @@ import lightworks as lw
 
 NN = 77
 NONE = -99
+NAN = 66
 
 
 def val(x):
-    return "text" if x == NN else x
+    return "text" if x == NN else (float("nan") if x == NAN else x)
 
 
 def bnd(x):
-    return None if x == NONE else ("text" if x == NN else x)
+    return None if x == NONE else val(x)
+
+
+def code(v):
+    if isinstance(v, str):
+        return NN
+    if isinstance(v, float) and v != v:
+        return NAN
+    return v
 
 
 def observe(params, pdict, nkeys):
-    par = tuple((NN if isinstance(p.get(), str) else p.get(), NONE if p.min_bound is None else p.min_bound,
-                 NONE if p.max_bound is None else p.max_bound) for p in params)
+    par = tuple((code(p.get()), NONE if p.min_bound is None else code(p.min_bound),
+                 NONE if p.max_bound is None else code(p.max_bound)) for p in params)
     pd = []
     for k in range(1, nkeys + 1):
         key = "k%d" % k
@@ -82,9 +91,9 @@ def replay_behaviour(states):
         # the property itself, on the real objects
         for j, p in enumerate(params):
             v = p.get()
-            if p.min_bound is not None and (isinstance(v, str) or v < p.min_bound):
+            if p.min_bound is not None and (isinstance(v, str) or not v >= p.min_bound):
                 out.append(("out_of_bounds", i, "parameter %d value %r below min bound %r" % (j + 1, v, p.min_bound)))
-            if p.max_bound is not None and (isinstance(v, str) or v > p.max_bound):
+            if p.max_bound is not None and (isinstance(v, str) or not v <= p.max_bound):
                 out.append(("out_of_bounds", i, "parameter %d value %r above max bound %r" % (j + 1, v, p.max_bound)))
         if out:
             break
